@@ -73,8 +73,20 @@ type valCase struct {
 	Extra      string  `json:"extra,omitempty"`
 }
 
+// pick draws an index in [0,n) roughly uniformly: rapid's integer generators are deliberately biased towards small
+// values and range ends, which would concentrate the search on the first and last types of the corpus.
+func pick(t *rapid.T, n int, label string) int {
+	x := rapid.Uint64().Draw(t, label)
+	x ^= x >> 30
+	x *= 0xbf58476d1ce4e5b9
+	x ^= x >> 27
+	x *= 0x94d049bb133111eb
+	x ^= x >> 31
+	return int(x % uint64(n))
+}
+
 func drawType(t *rapid.T, from []schema.Type) schema.Type {
-	return from[rapid.IntRange(0, len(from)-1).Draw(t, "type")]
+	return from[pick(t, len(from), "type")]
 }
 
 func isRecord(t schema.Type) bool {
